@@ -70,6 +70,10 @@ def monitor_c07(scn, impl):
     sess = scn["sessions"]
     if len({s["st"] for s in sess}) != len(sess):
         return None                                   # two sessions on one station: outside the property
+    if impl.get("data_mutated"):
+        return "the call modified the interface data owned by the caller (sessions / infrastructure lists)"
+    if impl.get("held_changed"):
+        return "a schedule dictionary returned by an earlier call changed afterwards (aliased with internal state)"
     if impl["err"] is not None:
         # No schedule is emitted.  With default session bounds the lower-bound vector is feasible
         # (C07_preproc_lower_bounds_feasible), so an exception is a defect -- except for round robin on a
@@ -312,6 +316,10 @@ def monitor_rr_trace(scn, impl):
 
 def monitor_unc(scn, impl):
     inf = scn["infra"]
+    if impl.get("data_mutated"):
+        return "UncontrolledCharging modified the interface data owned by the caller"
+    if impl.get("held_changed"):
+        return "a schedule returned earlier by UncontrolledCharging changed afterwards" 
     if impl["err"] is not None:
         return "UncontrolledCharging raised %s" % impl["err"]
     act = {s["st"] for s in scn["sessions"]}
@@ -362,7 +370,7 @@ def gen_sim(rng, tier, algo=None, sort=None, est=None, unint=None, inc=None):
         full = max(math.hypot(re, im), 0.3 * sum(abs(c) * st[i]["maxp"] for i, c in row.items()), 6.0)
         lim = round(full * rng.uniform(0.2, 1.0), rng.choice([0, 1]))
         cons.append(dict(row=row, limit=float(lim)))
-    period = float(rng.choice([1, 5, 5, 15]))
+    period = float(rng.choice([1, 5, 5, 15, 7, 2.5, 12]))
     horizon = rng.choice([12, 20, 30])
     evs = []
     sid = 0
@@ -387,96 +395,176 @@ def gen_sim(rng, tier, algo=None, sort=None, est=None, unint=None, inc=None):
                 ramp=(1.0, 1.0, 1.0) if rng.random() < 0.7 else (0.5, 2.0, 0.5))
 
 
-def run_sim(sim, capture=True, reuse=None):
+class Injected(Exception):
+    """raised by the harness from inside the scheduler call to interrupt a run"""
+
+
+class InjectedBase(BaseException):
+    """the same as a BaseException subclass (KeyboardInterrupt-like)"""
+
+
+def sim_names(sim):
+    return sim.get("names") or [sc.station_name(i) for i in range(len(sim["stations"]))]
+
+
+def make_sim_algo(sim):
+    """a real algorithm object with the observers and the call recorder installed; returns the handle
+    (algo, est, obs, ctx); ctx is filled by run_sim"""
+    import acnportal.algorithms as alg
+    est = alg.SimpleRampdown(*sim["ramp"]) if (sim["est"] and sim["algo"] != "unc") else None
+    kw = dict(estimate_max_rate=est is not None, max_rate_estimator=est, uninterrupted_charging=sim["unint"])
+    if sim["algo"] == "rr":
+        algo = alg.RoundRobin(sc.sort_fn(sim["sort"]), continuous_inc=sim["inc"], **kw)
+    elif sim["algo"] == "unc":
+        algo = alg.UncontrolledCharging()
+    else:
+        algo = alg.SortedSchedulingAlgo(sc.sort_fn(sim["sort"]), **kw)
+    obs = sc.Observed(algo, est, sim["algo"])
+    ctx = {}
+    orig_schedule = algo.schedule
+
+    def schedule(active_sessions):
+        iface = algo.interface
+        sim_ = ctx["sim"]
+        plan = ctx["plan"]
+        t = int(iface.current_time)
+        net = iface._simulator.network
+        op = (plan.get("mutate") or {}).pop(t, None)
+        if op is not None:          # the network is modified between two periods of the same run
+            from acnportal.acnsim import Current
+            names = list(net.constraint_index)
+            if op[0] == "update" and names:
+                nm = names[op[1] % len(names)]
+                j = net.constraint_index.index(nm)
+                row = {sid: float(net.constraint_matrix[j][k]) for k, sid in enumerate(net.station_ids)}
+                net.update_constraint(nm, Current(row), float(round(net.magnitudes[j] * op[2], 2)))
+            elif op[0] == "remove" and len(names) > 1:
+                net.remove_constraint(names[op[1] % len(names)])
+            elif op[0] == "add":
+                net.add_constraint(Current({sid: op[1][k % len(op[1])] for k, sid in enumerate(net.station_ids)}), op[2],
+                                   name="added%d" % t)
+        stop = plan.get("stop_at") == t and not ctx.get("stopped")
+        if stop and plan.get("stop_before", True):
+            ctx["stopped"] = True
+            raise (InjectedBase if plan.get("exc") == "base" else Injected)("injected at %d" % t)
+        snap = None
+        if ctx["capture"]:
+            info = iface.infrastructure_info()
+            N = len(info.station_ids)
+            idx = {n: k for k, n in enumerate(info.station_ids)}
+            etype = ["C0" if s["kind"] == "C0" else "F" for s in sim_["stations"]]
+            infra = dict(N=N, A=[[float(x) for x in row] for row in np.asarray(info.constraint_matrix)],
+                         L=[float(x) for x in info.constraint_limits], phases=[float(x) for x in info.phases],
+                         volt=[float(x) for x in info.voltages], maxp=[float(x) for x in info.max_pilot],
+                         minp=[float(x) for x in info.min_pilot],
+                         allow=[[float(x) for x in a] for a in info.allowable_pilots],
+                         cont=[bool(x) for x in info.is_continuous], etype=etype, names=list(info.station_ids))
+            sess = [dict(st=idx[s.station_id], sid=sc.sid_of(s.session_id), req=float(s.requested_energy),
+                         deliv=float(s.energy_delivered), arr=int(s.arrival), dep=int(s.departure),
+                         edep=int(s.estimated_departure), mins=[float(x) for x in s.min_rates],
+                         maxs=[float(x) for x in s.max_rates]) for s in active_sessions]
+            est_ = obs.est
+            e = None
+            if est_ is not None:
+                e = dict(up_thr=est_.up_threshold, down_thr=est_.down_threshold, up_inc=est_.up_increment,
+                         store={sc.sid_of(k): float(v) for k, v in est_.upper_bounds.items()},
+                         prev_pilot={sc.sid_of(k): float(v) for k, v in iface.last_applied_pilot_signals.items()},
+                         prev_rate={sc.sid_of(k): float(v) for k, v in iface.last_actual_charging_rate.items()})
+            snap = dict(infra=infra, period=float(iface.period), now=t, sessions=sess,
+                        algo=sim_["algo"], sort=sim_["sort"], est=e, unint=sim_["unint"], inc=sim_["inc"],
+                        sid_style=sim_.get("sid_style"))
+        obs.begin()
+        out, err = None, None
+        try:
+            out = orig_schedule(active_sessions)
+            if stop:
+                ctx["stopped"] = True
+                raise (InjectedBase if plan.get("exc") == "base" else Injected)("injected after the call at %d" % t)
+            return out
+        except (Injected, InjectedBase):
+            raise
+        except Exception as ex:  # noqa
+            err = type(ex).__name__
+            raise
+        finally:
+            rec = obs.end(out, err, list(algo.interface.infrastructure_info().station_ids))
+            if snap is not None:
+                ctx["calls"].append((snap, rec))
+    algo.schedule = schedule
+    return (algo, est, obs, ctx)
+
+
+def run_sim(sim, capture=True, reuse=None, plan=None):
     """run the real Simulator; returns dict(calls=[(unit scenario, in-simulator record)], warnings, exception, energies,
     handle).  Every scheduler invocation is recorded as it happened INSIDE the simulation (the algorithm object lives
-    across all periods); `reuse=handle` runs this simulation with the algorithm object of a previous one."""
+    across all periods).  `reuse=handle` runs this simulation with the algorithm object of a previous one.
+    `plan`: stop_at=t (the scheduler call of period t raises Injected / InjectedBase, before or after doing its work),
+    then optionally a JSON round trip of the Simulator, optionally a FRESH scheduler object, optionally another
+    simulation in between (`between`), then run() again; mutate={t: op} edits the network's constraints at period t."""
     from acnportal.acnsim import Simulator, ChargingNetwork, Current
     from acnportal.acnsim.models import EV, EVSE, FiniteRatesEVSE, Battery, Linear2StageBattery
     from acnportal.acnsim.events import EventQueue, PluginEvent
-    import acnportal.algorithms as alg
+    plan = dict(plan or {})
+    if plan.get("mutate"):
+        plan["mutate"] = {int(k): v for k, v in plan["mutate"].items()}
+    names = sim_names(sim)
+    st_ = sim.get("sid_style") or "sess%d"
+    as_int = sim.get("dtype") == "int"
+    num = (lambda x: int(x) if as_int and float(x) == int(x) else x)
     net = ChargingNetwork()
     for i, st in enumerate(sim["stations"]):
-        ev = EVSE(sc.station_name(i), max_rate=st["maxp"]) if st["kind"] == "C0" else FiniteRatesEVSE(sc.station_name(i), list(st["rates"]))
-        net.register_evse(ev, st["volt"], st["phase"])
+        ev = EVSE(names[i], max_rate=num(st["maxp"])) if st["kind"] == "C0" else FiniteRatesEVSE(names[i], [num(r) for r in st["rates"]])
+        net.register_evse(ev, num(st["volt"]), num(st["phase"]))
     for j, c in enumerate(sim["cons"]):
-        net.add_constraint(Current({sc.station_name(int(i)): v for i, v in c["row"].items()}), c["limit"], name="c%d" % j)
+        net.add_constraint(Current({names[int(i)]: num(v) for i, v in c["row"].items()}), num(c["limit"]), name="c%d" % j)
     evs = []
     for e in sim["evs"]:
         if e["batt"] == "ideal":
             b = Battery(e["cap"], max(0.0, e["cap"] - e["req"] - 0.5), e["maxpow"])
         else:
             b = Linear2StageBattery(e["cap"], max(0.0, e["cap"] - e["req"]), e["maxpow"])
-        evs.append(EV(e["arr"], e["dep"], e["req"], sc.station_name(e["st"]), sc.session_name(e["sid"]), b,
+        evs.append(EV(e["arr"], e["dep"], num(e["req"]), names[e["st"]], sc.session_name(e["sid"], st_), b,
                       estimated_departure=e["edep"]))
     queue = EventQueue([PluginEvent(e.arrival, e) for e in evs])
-    if reuse is not None:
-        algo, est, obs, ctx = reuse
-    else:
-        est = alg.SimpleRampdown(*sim["ramp"]) if (sim["est"] and sim["algo"] != "unc") else None
-        kw = dict(estimate_max_rate=est is not None, max_rate_estimator=est, uninterrupted_charging=sim["unint"])
-        if sim["algo"] == "rr":
-            algo = alg.RoundRobin(sc.sort_fn(sim["sort"]), continuous_inc=sim["inc"], **kw)
-        elif sim["algo"] == "unc":
-            algo = alg.UncontrolledCharging()
-        else:
-            algo = alg.SortedSchedulingAlgo(sc.sort_fn(sim["sort"]), **kw)
-        obs = sc.Observed(algo, est, sim["algo"])
-        ctx = {}
-        orig_schedule = algo.schedule
-
-        def schedule(active_sessions):
-            iface = algo.interface
-            sim_ = ctx["sim"]
-            snap = None
-            if ctx["capture"]:
-                info = iface.infrastructure_info()
-                N = len(info.station_ids)
-                idx = {n: k for k, n in enumerate(info.station_ids)}
-                etype = ["C0" if s["kind"] == "C0" else "F" for s in sim_["stations"]]
-                infra = dict(N=N, A=[[float(x) for x in row] for row in np.asarray(info.constraint_matrix)],
-                             L=[float(x) for x in info.constraint_limits], phases=[float(x) for x in info.phases],
-                             volt=[float(x) for x in info.voltages], maxp=[float(x) for x in info.max_pilot],
-                             minp=[float(x) for x in info.min_pilot],
-                             allow=[[float(x) for x in a] for a in info.allowable_pilots],
-                             cont=[bool(x) for x in info.is_continuous], etype=etype)
-                sess = [dict(st=idx[s.station_id], sid=sc.sid_of(s.session_id), req=float(s.requested_energy),
-                             deliv=float(s.energy_delivered), arr=int(s.arrival), dep=int(s.departure),
-                             edep=int(s.estimated_departure), mins=[float(x) for x in s.min_rates],
-                             maxs=[float(x) for x in s.max_rates]) for s in active_sessions]
-                e = None
-                if est is not None:
-                    e = dict(up_thr=est.up_threshold, down_thr=est.down_threshold, up_inc=est.up_increment,
-                             store={sc.sid_of(k): float(v) for k, v in est.upper_bounds.items()},
-                             prev_pilot={sc.sid_of(k): float(v) for k, v in iface.last_applied_pilot_signals.items()},
-                             prev_rate={sc.sid_of(k): float(v) for k, v in iface.last_actual_charging_rate.items()})
-                snap = dict(infra=infra, period=float(iface.period), now=int(iface.current_time), sessions=sess,
-                            algo=sim_["algo"], sort=sim_["sort"], est=e, unint=sim_["unint"], inc=sim_["inc"])
-            obs.begin()
-            out, err = None, None
-            try:
-                out = orig_schedule(active_sessions)
-                return out
-            except Exception as ex:  # noqa
-                err = type(ex).__name__
-                raise
-            finally:
-                rec = obs.end(out, err, len(sim_["stations"]))
-                if snap is not None:
-                    ctx["calls"].append((snap, rec))
-        algo.schedule = schedule
-    ctx["sim"], ctx["capture"], ctx["calls"] = sim, capture, []
-    sim_obj = Simulator(net, algo, queue, datetime.datetime(2020, 1, 1), period=sim["period"], verbose=False)
+    handle = reuse if reuse is not None else make_sim_algo(sim)
+    algo, est, obs, ctx = handle
+    calls = []
+    ctx.update(sim=sim, capture=capture, calls=calls, plan=plan, stopped=False)
+    sim_obj = Simulator(net, algo, queue, datetime.datetime(2020, 1, 1), period=num(sim["period"]), verbose=False)
     exc = None
+    resumed = False
     with warnings.catch_warnings(record=True) as w:
         warnings.simplefilter("always")
-        try:
-            sim_obj.run()
-        except Exception as e:  # noqa
-            exc = "%s: %s" % (type(e).__name__, str(e)[:200])
+        for _attempt in range(2):
+            try:
+                sim_obj.run()
+                break
+            except (Injected, InjectedBase):
+                if resumed:
+                    exc = "injected exception raised twice"
+                    break
+                resumed = True
+                try:
+                    if plan.get("json"):
+                        sim_obj = Simulator.from_json(sim_obj.to_json())
+                    if plan.get("fresh"):
+                        handle = make_sim_algo(sim)
+                        algo, est, obs, ctx = handle
+                        ctx.update(sim=sim, capture=capture, calls=calls, plan=plan, stopped=True)
+                    if plan.get("json") or plan.get("fresh"):
+                        sim_obj.update_scheduler(algo)
+                    if plan.get("between") is not None:
+                        plan["between"]()
+                except Exception as e:  # noqa
+                    exc = "resume failed: %s: %s" % (type(e).__name__, str(e)[:160])
+                    break
+            except Exception as e:  # noqa
+                exc = "%s: %s" % (type(e).__name__, str(e)[:200])
+                break
     warns = [str(x.message)[:160] for x in w if "Invalid schedule" in str(x.message)]
-    energies = [(e.session_id, float(e.energy_delivered), float(e.requested_energy)) for e in evs]
-    return dict(calls=ctx["calls"], warnings=warns, exception=exc, energies=energies, handle=(algo, est, obs, ctx))
+    energies = [(str(e.session_id), float(e.energy_delivered), float(e.requested_energy)) for e in sim_obj.ev_history.values()]
+    return dict(calls=calls, warnings=warns, exception=exc, energies=energies, handle=handle,
+                interrupted=resumed)
 
 
 def gen_sim_flip(rng, tier, algo=None, sort=None):
@@ -552,12 +640,12 @@ def sim_stream(rng, n_sims, n_calls, tier, mk_case, with_unc=False):
               for i in ((0.5, 1.0) if a == "rr" else (0.5, 0.5))]
     rng.shuffle(combos)
 
-    def one(sim, reuse=None):
-        res = run_sim(sim, reuse=reuse)
+    def one(sim, reuse=None, plan=None):
+        res = run_sim(sim, reuse=reuse, plan=plan)
         v = sim_violation(res)
         if v:
-            cases.append(dict(input=dict(sim=sim), impl=dict(warnings=res["warnings"], exception=res["exception"],
-                                                             energies=res["energies"]),
+            cases.append(dict(input=dict(sim=sim, plan={k_: v_ for k_, v_ in (plan or {}).items() if k_ != "between"}),
+                              impl=dict(warnings=res["warnings"], exception=res["exception"], energies=res["energies"]),
                               coq=None, ambiguous=True, kind="sim-violation", sig=repr(sim), nontrivial=True,
                               sim_violation=v))
         for snap, rec in res["calls"]:
@@ -571,7 +659,27 @@ def sim_stream(rng, n_sims, n_calls, tier, mk_case, with_unc=False):
             sim = gen_sim_flip(rng, tier, algo=a, sort=s if s in ("llf", "lrpt") else None)
         else:
             sim = gen_sim(rng, tier, a, s, e, u, i)
-        res = one(sim)
+        if rng.random() < 0.35:      # ids whose sorted order differs from registration order, numeric-looking, ...
+            sim["names"] = sc.make_names(rng.choice(["offset", "case", "numeric"]), len(sim["stations"]))
+            sim["sid_style"] = rng.choice(sc.SID_STYLES)
+        if rng.random() < 0.25:
+            sim["dtype"] = "int"
+        plan = None
+        r_ = rng.random()
+        if r_ < 0.5:
+            # interrupted at some period by an Exception / BaseException raised from the scheduler call (before or after the
+            # algorithm did its work), resumed with run(): as is, after a JSON round trip, with a fresh scheduler object
+            plan = dict(stop_at=rng.randint(1, 9), exc=rng.choice(["exc", "base"]), stop_before=rng.random() < 0.5,
+                        json=rng.random() < 0.5, fresh=rng.random() < 0.35)
+            if rng.random() < 0.35:
+                other = rerated(rng, sim)
+                plan["between"] = (lambda o=other: one(o))       # a second live simulation in between (same station ids)
+        if rng.random() < 0.3 and sim["cons"]:
+            plan = plan or {}
+            plan["mutate"] = {rng.randint(1, 9): rng.choice([("update", rng.randint(0, 3), rng.choice([0.6, 0.8, 1.3])),
+                                                            ("remove", rng.randint(0, 3)),
+                                                            ("add", [1.0, 0.0, 1.0, 0.5], float(rng.choice([24, 40, 17.5])))])}
+        res = one(sim, plan=plan)
         if k % 4 == 3 or sim["algo"] == "unc":
             one(rerated(rng, sim), reuse=res["handle"])          # the SAME scheduler object on another network
     # keep consecutive calls together: sample whole-simulation runs of calls until the budget is used
@@ -593,8 +701,169 @@ def sim_search_once(rng):
     return None
 
 
-def replay_sim(sim):
+def replay_sim(sim, plan=None):
     sim = dict(sim)
     for c in sim["cons"]:
         c["row"] = {int(k): v for k, v in c["row"].items()}
-    return sim_violation(run_sim(sim, capture=False))
+    if plan and plan.get("mutate"):
+        plan = dict(plan, mutate={int(k): tuple(v) for k, v in plan["mutate"].items()})
+    return sim_violation(run_sim(sim, capture=False, plan=plan))
+
+
+# =============================================================================================
+# direct calls of the public static search functions (explicit and default eps / lb)
+# =============================================================================================
+def gen_mfr(rng, tier):
+    """SortedSchedulingAlgo.max_feasible_rate / discrete_max_feasible_rate called directly on a given vector"""
+    scn = sc.gen_scenario(rng, tier, algo="greedy", est=False, user_bounds=False, plenty=0.8)
+    inf = scn["infra"]
+    base = sc.run_impl(scn)["sched"] or [0.0] * inf["N"]
+    sched = [float(x) for x in base]
+    t = rng.random()
+    if t < 0.25:
+        sched = [round(x * rng.uniform(0.3, 1.0), 2) for x in sched]
+    elif t < 0.35:
+        sched = [float(rng.choice([0, 8, 16, 40])) for _ in sched]        # possibly infeasible to start with
+    idx = rng.randrange(inf["N"])
+    cont = rng.random() < 0.6
+    eps = rng.choice([None, 0.01, 0.0001, 0.5, 0.001, 0.25, 2.0])
+    lb = rng.choice([None, 0.0, sched[idx], sched[idx], round(sched[idx] * 0.5, 2)])
+    ub = float(rng.choice([inf["maxp"][idx], 32.0, 16.5, max(sched[idx], 1.0) * 2, sched[idx]]))
+    levels = sorted(set(rng.choice(sc.FINITE_SETS[:6]) + [sched[idx]])) if rng.random() < 0.5 else list(rng.choice(sc.FINITE_SETS[:6]))
+    levels = [a for a in levels if a <= ub] or [0.0]
+    return dict(infra=inf, idx=idx, sched=sched, cont=cont, eps=eps, lb=lb, ub=ub, levels=[float(a) for a in levels],
+                period=scn["period"], now=scn["now"])
+
+
+def run_mfr(m):
+    from acnportal.algorithms import SortedSchedulingAlgo
+    from acnportal.algorithms.tests.testing_interface import TestingInterface
+    stub = dict(infra=m["infra"], sessions=[], est=None, period=m["period"], now=m["now"])
+    info = TestingInterface(sc.iface_data(stub)).infrastructure_info()
+    arr = np.array(m["sched"], dtype=float)
+    keep = arr.copy()
+    lv = list(m["levels"])
+    err, val = None, None
+    try:
+        if m["cont"]:
+            kw = {}
+            if m["eps"] is not None:
+                kw["eps"] = m["eps"]
+            if m["lb"] is not None:
+                kw["lb"] = m["lb"]
+            val = SortedSchedulingAlgo.max_feasible_rate(m["idx"], m["ub"], arr, info, **kw)
+        else:
+            val = SortedSchedulingAlgo.discrete_max_feasible_rate(m["idx"], lv, arr, info)
+    except Exception as e:  # noqa
+        err = type(e).__name__
+    return dict(err=err, val=None if val is None else float(val),
+                arg_mutated=bool(np.any(arr != keep)) or lv != list(m["levels"]))
+
+
+def twin_mfr(m):
+    stub = dict(infra=m["infra"], sessions=[], est=None, period=m["period"], now=m["now"], algo="greedy", sort="fcfs",
+                unint=False, inc=0.5)
+    tw = sc.Twin(stub)
+    D = sc.D
+    F = fractions.Fraction
+    x = [D(v) for v in m["sched"]]
+    try:
+        if m["cont"]:
+            e = m["eps"] if m["eps"] is not None else 0.0001
+            l = m["lb"] if m["lb"] is not None else 0.0
+            r = tw.max_feasible_rate(m["idx"], D(m["ub"]), x, D(e, F(repr(float(e)))), D(l))
+        else:
+            r = tw.discrete_max(m["idx"], [D(a) for a in m["levels"]], x)
+        return dict(err=None, val=r.fl, amb=tw.ctx.amb)
+    except sc.TwinError as ex:
+        return dict(err=str(ex), val=None, amb=tw.ctx.amb)
+
+
+def mfr_coq(m, impl):
+    from harness.core import q, coq_list, coq_bool, coq_opt, coq_str
+    e = m["eps"] if m["eps"] is not None else 0.0001
+    l = m["lb"] if m["lb"] is not None else 0.0
+    return ("{| m_infra := %s; m_idx := %d; m_sched := %s; m_cont := %s; m_ub := %s; m_eps := %s; m_lb := %s; "
+            "m_levels := %s; om_err := %s; om_val := %s |}") % (
+        sc.infra_coq(m["infra"]), m["idx"], sc.qlist(m["sched"]), coq_bool(m["cont"]), q(m["ub"]),
+        q(fractions.Fraction(repr(float(e)))), q(l), sc.qlist(m["levels"]), coq_opt(impl["err"], coq_str),
+        q(impl["val"] if impl["val"] is not None else 0.0))
+
+
+def monitor_mfr(m, impl):
+    if impl.get("arg_mutated"):
+        return "max_feasible_rate / discrete_max_feasible_rate modified the schedule array or level list of the caller"
+    if impl["err"] is not None:
+        exc, _ = exact_margin(m["infra"], m["sched"])
+        if exc < -1e-6:
+            return "%s raised although the given schedule is feasible" % impl["err"]
+        return None
+    test = list(m["sched"])
+    test[m["idx"]] = impl["val"]
+    exc, j = exact_margin(m["infra"], test)
+    cur, _ = exact_margin(m["infra"], m["sched"])
+    if m["cont"]:
+        lb = m["lb"] if m["lb"] is not None else 0.0
+        if exc > 1e-9 and abs(impl["val"] - lb) > 1e-12:
+            return "max_feasible_rate returned %r which is infeasible by %.3g A" % (impl["val"], exc)
+        if impl["val"] > max(m["ub"], lb) + 1e-9:
+            return "max_feasible_rate returned %r above ub %r" % (impl["val"], m["ub"])
+    else:
+        if impl["val"] != 0 and not any(abs(impl["val"] - a) <= 1e-12 for a in m["levels"]):
+            return "discrete_max_feasible_rate returned %r which is not one of the given levels" % impl["val"]
+        if exc > 1e-9 and impl["val"] != 0:
+            return "discrete_max_feasible_rate returned the infeasible level %r" % impl["val"]
+        for a in m["levels"]:
+            if a > impl["val"] + 1e-9:
+                t2 = list(m["sched"])
+                t2[m["idx"]] = a
+                e2, _ = exact_margin(m["infra"], t2)
+                if e2 < -1e-6:
+                    return "discrete_max_feasible_rate returned %r although the higher level %r is feasible" % (impl["val"], a)
+    return None
+
+
+def mfr_case(rng, tier):
+    m = gen_mfr(rng, tier)
+    impl = run_mfr(m)
+    tw = twin_mfr(m)
+    return dict(input=dict(mfr=m), impl=impl, coq=mfr_coq(m, impl), ambiguous=bool(tw["amb"]),
+                kind="direct:%s" % ("max_feasible_rate" if m["cont"] else "discrete_max_feasible_rate"),
+                sig=repr(m), nontrivial=True)
+
+
+# =============================================================================================
+# a second process with another PYTHONHASHSEED must return the same schedules
+# =============================================================================================
+def hashseed_recheck(cases, limit=14):
+    """re-run some stub-driven cases in a child process started with PYTHONHASHSEED=4242; returns {index: message}"""
+    import json, os, subprocess, sys, tempfile
+    picked = [(k, c) for k, c in enumerate(cases)
+              if not c.get("ambiguous") and "history" not in c["input"] and "sessions" in c["input"]][:limit]
+    if not picked:
+        return {}
+    with tempfile.NamedTemporaryFile("w", suffix=".json", delete=False) as f:
+        json.dump([c["input"] for _, c in picked], f)
+        path = f.name
+    code = ("import json,sys;from harness import sorted_common as sc;"
+            "d=json.load(open(sys.argv[1]));"
+            "print(json.dumps([(lambda r:[r['err'],r['sched'],r['order']])(sc.run_impl(sc.scn_from_json(x))) for x in d]))")
+    env = dict(os.environ, PYTHONHASHSEED="4242")
+    try:
+        p = subprocess.run([sys.executable, "-W", "ignore", "-c", code, path], env=env, cwd=os.path.dirname(os.path.dirname(os.path.abspath(__file__))),
+                           stdout=subprocess.PIPE, stderr=subprocess.PIPE, text=True, timeout=120)
+        res = json.loads(p.stdout.strip().split("\n")[-1])
+    except Exception as e:  # noqa
+        return {picked[0][0]: "the second process (PYTHONHASHSEED=4242) failed: %s" % str(e)[:120]}
+    finally:
+        os.unlink(path)
+    bad = {}
+    for (k, c), r in zip(picked, res):
+        i = c["impl"]
+        same = r[0] == i["err"] and r[2] == i["order"] and (
+            (r[1] is None) == (i["sched"] is None)
+            and (r[1] is None or all((a is None and b is None) or (a is not None and b is not None and abs(a - b) <= 1e-12 * max(1, abs(a)))
+                                     for a, b in zip(r[1], i["sched"]))))
+        if not same:
+            bad[k] = "a second process with PYTHONHASHSEED=4242 returns %r instead of %r" % (r[1], i["sched"])
+    return bad
